@@ -93,6 +93,7 @@ SHAPES = {
     "stream-for-each-reducer": ("(define ones (stream-cons 1 (lambda () ones))) ;;;UNIT;;; (c17-mark!) (transduce ones (into-for-each (lambda (x) x)))", {"hof"}),
     "stream-generic-reducer": ("(define ones (stream-cons 1 (lambda () ones))) ;;;UNIT;;; (c17-mark!) (transduce ones (into-reducer (lambda (acc x) (+ acc x)) 0))", {"hof", "streamtail"}),
     "long-list-filter": ("(define big (range 0 600000)) ;;;UNIT;;; (c17-mark!) (transduce big (filtering (lambda (x) #f)) (into-list))", {"hof", "long"}),
+    "long4m-list-filter": ("(define big (range 0 4000000)) ;;;UNIT;;; (c17-mark!) (transduce big (filtering (lambda (x) #f)) (into-list))", {"hof", "long"}),
     "long-list-map-filter-take": ("(define big (range 0 600000)) ;;;UNIT;;; (c17-mark!) (transduce big (mapping (lambda (x) (* x 2))) (filtering (lambda (x) (< x 0))) (taking 3) (into-list))", {"hof", "long"}),
     "long-list-flatten-filter": ("(define big (range 0 200000)) ;;;UNIT;;; (c17-mark!) (transduce (list big big big) (flattening) (filtering (lambda (x) #f)) (into-count))", {"hof", "long"}),
     "long-list-for-each-reducer": ("(define big (range 0 600000)) ;;;UNIT;;; (c17-mark!) (transduce big (into-for-each (lambda (x) x)))", {"hof", "long"}),
@@ -115,7 +116,7 @@ QUICK_SHAPES = ["self-tail", "named-let", "internal-define", "mutual-tail", "non
                 "earlier-spin-d1", "earlier-spin-d2", "earlier-spin-d3", "earlier-count-d1", "earlier-spin2-d2",
                 "earlier-spin-in-map", "module-spin-from-compiled",
                 "stream-filter-closure", "stream-map-filter", "stream-flatmap-filter", "stream-for-each-reducer",
-                "stream-generic-reducer", "long-list-filter", "long-list-map-filter-take", "long-list-flatten-filter",
+                "stream-generic-reducer", "long-list-filter", "long4m-list-filter", "long-list-map-filter-take", "long-list-flatten-filter",
                 "long-hash-filter", "long-vector-filter", "long-sort-comparator", "stream-tail-prim-filter"]
 
 
